@@ -43,8 +43,8 @@ func TestRegBasics(t *testing.T) {
 }
 
 // TestRegRelabelledValue: a valid value of (key "k", device 2) whose wire label names
-// another key / another device's slot must not be filed there (found on the unchanged
-// tree: KeyValueFromProto never compared KeyPeerId with the signed key and peer; with a
+// another key / another device's slot must not be filed there (found by this check,
+// fixed in /repo e2adb8a: KeyValueFromProto never compared KeyPeerId with the signed key and peer; with a
 // greater timestamp the relabelled value even replaced another device's value).
 func TestRegRelabelledValue(t *testing.T) {
 	outerT = t
@@ -64,8 +64,8 @@ func TestRegRelabelledValue(t *testing.T) {
 
 // TestRegUnauthorisedSigner: correctly signed values by a reader (2), a removed member
 // (3, citing a record after its removal) and a never-member (4) must not be stored by
-// SetRaw (found on the unchanged tree: the remote path resolved the read key of the cited
-// record but never looked at the signer's permission there).
+// SetRaw (found by this check, fixed in /repo bd7e831: the remote path resolved the read
+// key of the cited record but never looked at the signer's permission there).
 func TestRegUnauthorisedSigner(t *testing.T) {
 	outerT = t
 	c := baseCase()
@@ -108,8 +108,8 @@ func TestRegUnknownHeadThenLearnt(t *testing.T) {
 
 // TestRegReaddedSigner: account 1 was a writer at record 1, is removed at record 5 and
 // added again at record 6. Its value citing record 1 is valid for every store, whether or
-// not the store already knows the re-add (found with the write-permission check in place:
-// AclState.applyAccountsAdd dropped the account's permission history on re-add, so
+// not the store already knows the re-add (found with the write-permission check in place,
+// fixed in /repo 208ac24: AclState.applyAccountsAdd dropped the account's permission history on re-add, so
 // PermissionsAtRecord answered "none" for every record before the re-add and a store that
 // knew the whole ACL refused what a store with a shorter view had accepted: no convergence).
 func TestRegReaddedSigner(t *testing.T) {
